@@ -400,7 +400,7 @@ class Exec:
             return V('map', (self.fresh(arr.sort(), name), self.fresh(dom.sort(), name + '_dom')), **v.x)
         if k == 'ref': return V('ref', self.fresh(REF, name), **v.x)
         if k == 'tuple': return V('tuple', tuple(self.fresh_like(i, name) for i in v.t))
-        if k in ('none', 'opaque'): return v
+        if k in ('none', 'opaque', 'exc', 'cls'): return v
         if k == 'obj':
             fields = self.c.get('obj_havoc_fields')
             if not fields: raise OutOfReach('loop-carried heap object without obj_havoc_fields in the contract')
@@ -1377,6 +1377,13 @@ class Exec:
             L = z3.Length(it.t)
             rev = it.get('rev', False)
             elem = (lambda i: it.x['ek'].wrap(it.t[L - 1 - i])) if rev else (lambda i: it.x['ek'].wrap(it.t[i]))
+        elif it.kind == 'tuple' and it.t:
+            items = list(it.t); L = z3.IntVal(len(items))        # a Python tuple of values of one kind: element i by case distinction
+
+            def elem(i, items=items):
+                v = items[-1]
+                for idx in range(len(items) - 2, -1, -1): v = self.ite(i == idx, items[idx], v)
+                return v
         elif it.kind == 'enum':
             src = it.x['src']
             if src.kind != 'seq': raise OutOfReach('enumerate over non-seq')
